@@ -438,7 +438,10 @@ def c01_roundtrip_case(case):
     propagation every transceiver of the path - the transmitting one too - reports figures that obey the 1/GSNR identity"""
     import numpy as np
     topo = micro_topologies()[case['topo']]
-    network, equipment, _req, _ref = design(topo, eqpt_json(case['eq']), sim=None)
+    try:
+        network, equipment, _req, _ref = design(topo, eqpt_json(case['eq']), sim=None)
+    except Exception as exc:  # noqa  (a topology that names models of another library: as in c01_propagation_case)
+        return {'status': 'rejected', 'violations': [], 'tags': {f'design-raised:{type(exc).__name__}': 1}}
     viol, transitions, traces = [], 0, 0
     paths = all_simple_trx_paths(network)
     for p in paths[:2]:
